@@ -227,6 +227,7 @@ def main():
     nobl = ndis = 0
     obligations = []
     canaries = 0
+    dead_paths = []
     for rep in fn_reports:
         if rep['error']:
             if rep['error'].startswith('engine error'):
@@ -234,7 +235,13 @@ def main():
             else:
                 drift.append({'function': rep['path'], 'reason': rep['error']})
             continue
+        live = {r['name'] for r in rep['results'] if r['expect'] == 'sat' and r['ok']}
         for r in rep['results']:
+            if r['expect'] == 'sat' and not r['ok'] and r['status'] == 'unsat' and r['name'] in live:
+                # this path through the loop/function is unreachable under the contract (dead branch) while another path to the
+                # same point is reachable: the assumptions are not contradictory; recorded, not counted as an obligation
+                dead_paths.append('%s %s@%s' % (rep['path'], r['name'], r.get('line')))
+                continue
             nobl += 1
             obligations.append({'name': r['name'], 'function': rep['path'], 'sha': (rep['info'] or {}).get('sha256', '')[:16],
                                 'backend': r['backend'], 'status': r['status'], 'time_s': r['time_s']})
@@ -323,7 +330,7 @@ def main():
         exit_code = 3
     wall = time.time() - t0
     write_evidence(a, spec, seed, fn_reports, lemmas, inlined, obligations, nobl, ndis, canaries, bounded, drift, undecided,
-                   machinery, known_hit, nviol, wall)
+                   machinery, known_hit, nviol, wall, dead_paths)
     for l in lines:
         print(l)
     for l in und_lines:
@@ -372,7 +379,7 @@ def do_replay(pid, spec, path):
 
 
 def write_evidence(a, spec, seed, fn_reports, lemmas, inlined, obligations, nobl, ndis, canaries, bounded, drift, undecided,
-                   machinery, known_hit, nviol, wall):
+                   machinery, known_hit, nviol, wall, dead_paths=()):
     functions = []
     for rep in fn_reports:
         info = rep['info'] or {}
@@ -411,6 +418,7 @@ def write_evidence(a, spec, seed, fn_reports, lemmas, inlined, obligations, nobl
         'known_findings_matched': known_hit,
         'samples': samples or [{'note': 'no obligations generated'}],
         'machinery_errors': machinery,
+        'paths_unreachable_under_the_contract': list(dead_paths),
     }
     if bounded and not bounded.get('missing') and not bounded.get('error'):
         cov['bounded'] = {'label': 'bounded stand-in, never counted as proved', 'module': bounded.get('module'), 'cases': bounded.get('cases'),
